@@ -218,7 +218,7 @@ func (rep *Report) takeSig(def *propDef, st *SigStats, err error) {
 	}
 	rep.Specials = append(rep.Specials, &SpecialStats{Name: "sig", Evaluations: st.Tests, Distinct: st.Cases, States: st.TLC.Distinct,
 		Transitions: st.TLC.Generated, Traces: st.Cases,
-		Rule:    "every signature descriptor of the bounded grammar of spec/Sig.tla (one TLC state each; internal theorems as invariants) is built as a Go value with reflect and passed to the real Provide, Decorate and Invoke in three container states; distinct = enumerated descriptors",
+		Rule:    "every signature descriptor of the bounded grammar of spec/Sig.tla (one TLC state each; internal theorems as invariants) is built as a Go value with reflect and passed to the real Provide, Decorate and Invoke in three container states, each followed by a fixed continuation of valid operations (consumer of the registered keys invoked twice, valid Provide / Invoke, scope created afterwards, Visualize) that must not panic or fail; distinct = enumerated descriptors",
 		Samples: st.Samples, Wall: st.Wall, Extra: map[string]interface{}{"accepted_by_provide": st.Accepted, "divergences": st.Divs}})
 	for _, ex := range st.Examples {
 		if def.claims(ex.Kind, ex.Detail) {
